@@ -198,6 +198,9 @@ class Eval:
         k = e[0]
         if k in ("ref", "deref"):
             return self.bytes_of(e[1], n)
+        if k == "proj" and isinstance(e[2], str) and re.match(r"^@(Ok|Some|Continue)\.0$", e[2]):
+            # `let Ok(word) = <[u8; 4]>::try_from(ext) else {..}`: the payload of a successful conversion is the converted bytes
+            return self.bytes_of(e[1], n)
         if k == "call":
             p = e[1]
             if re.search(r"(TryInto|TryFrom).*::(try_into|try_from)$|AsRef.*::as_ref$|(Option|Result)::(unwrap|expect)$|Clone::clone$|Deref::deref$|Borrow.*::borrow$|slice::.*::to_vec$", p):
